@@ -47,6 +47,34 @@ ITER_BUILTINS = {"len", "iter", "list", "tuple", "set", "frozenset", "sorted", "
 CONTAINER_METHODS = {"keys", "values", "items", "__iter__", "__len__", "copy", "get"}
 
 
+def _is_exact_scalar_test(e: ast.AST, var: str) -> bool:
+    """`type(var) is str` (or another builtin scalar class)"""
+    if isinstance(e, ast.Compare) and len(e.ops) == 1 and isinstance(e.ops[0], ast.Is):
+        for x, y in ((e.left, e.comparators[0]), (e.comparators[0], e.left)):
+            if is_call_to(x, "type") and len(x.args) == 1 and dotted(x.args[0]) == var and (dotted(y) or "") in BUILTIN_SCALAR_CLASSES:
+                return True
+    return False
+
+
+def _short_circuit_exact_scalar(parent: Dict[int, ast.AST], x: ast.AST, var: str) -> bool:
+    """x is evaluated only after `type(var) is <builtin scalar>` held: an earlier conjunct of an enclosing `and`, or the test
+    of an enclosing conditional expression whose true branch holds x"""
+    cur: ast.AST = x
+    while True:
+        p = parent.get(id(cur))
+        if p is None or isinstance(p, ast.stmt):
+            return False
+        if isinstance(p, ast.BoolOp) and isinstance(p.op, ast.And):
+            idx = next((i for i, v in enumerate(p.values) if v is cur), None)
+            if idx is not None and any(_is_exact_scalar_test(v, var) for v in p.values[:idx]):
+                return True
+        if isinstance(p, ast.IfExp) and p.body is cur and _is_exact_scalar_test(p.test, var):
+            return True
+        if isinstance(p, (ast.Lambda, ast.GeneratorExp, ast.ListComp, ast.SetComp, ast.DictComp)):
+            return False
+        cur = p
+
+
 def _canon_locals(fi: FunctionInfo, x: ast.AST) -> str:
     """the construct with the function's own local names blanked (a finding is the operation, whatever the variable is called)"""
     import copy
@@ -199,6 +227,8 @@ class Classifier:
                     at = node_of(x)
                     if x.func.attr in CONTAINER_METHODS and var is not None and self.exact_at(fi, g, at, var):
                         safe(x, "container method of an exactly-typed builtin container")
+                    elif var is not None and _short_circuit_exact_scalar(parent, x, var):
+                        safe(x, "method of an exactly-typed builtin scalar (type(v) is str held)")
                     else:
                         hook(x, f"method call .{x.func.attr}() on the object")
                     continue
@@ -206,6 +236,9 @@ class Classifier:
                     hook(x, f".{x.func.attr}() hashes/compares the value")
                     continue
                 callee = self.repo.resolve_callee(fi, x)
+                if callee is None and args_val and all(dotted(a) is not None and _short_circuit_exact_scalar(parent, x, dotted(a) or "") for a in args_val):
+                    safe(x, "library call on exactly-typed builtin scalars (their hashing/equality/formatting is the builtin's)")
+                    continue
                 if callee is None and args_val:
                     if isinstance(x.func, ast.Attribute) and x.func.attr in ("append", "extend", "insert", "log", "exception", "error", "debug", "info", "warning"):
                         if x.func.attr in ("exception", "error", "debug", "info", "warning"):
@@ -281,7 +314,7 @@ class Classifier:
                     if is_class_level(x.slice, at):
                         safe(x, "subscription with a class object (class-level only)")
                     elif dotted(x.slice) is not None and self._all_str_guard(fi, g, at, x, dotted(x.slice)):
-                        safe(x, "key whose type is a subclass of str (builtin hashing)")
+                        safe(x, "key whose type is exactly str (builtin hashing)")
                     else:
                         hook(x, "use as a key hashes the value")
                 elif lv(x.value) >= T.VAL and isinstance(x.ctx, ast.Load):
@@ -297,7 +330,7 @@ class Classifier:
                         var = dotted(k)
                         at = node_of(x)
                         if var is not None and self._all_str_guard(fi, g, at, x, var):
-                            safe(k, "key whose type is a subclass of str (builtin hashing)")
+                            safe(k, "key whose type is exactly str (builtin hashing)")
                         else:
                             hook(k, "use as a dict key / set member hashes the value")
                 continue
@@ -379,8 +412,31 @@ class Classifier:
                     src = gen.iter
                     if isinstance(src, ast.Call) and isinstance(src.func, ast.Attribute) and src.func.attr == "keys" and dotted(src.func.value) == cont_here or dotted(src) == cont_here:
                         e = ge.elt
-                        if is_call_to(e, "issubclass") and len(e.args) == 2 and is_call_to(e.args[0], "type") and dotted(e.args[0].args[0]) == dotted(gen.target) and all(c in BUILTIN_SCALAR_CLASSES for c in self._class_names(e.args[1])):
+                        if self._scalar_pred(fi, e, dotted(gen.target) or ""):
                             return True
+        return False
+
+    def _scalar_pred(self, fi: FunctionInfo, e: ast.AST, var: str, depth: int = 0) -> bool:
+        """e is true only if `var` is an instance of exactly a builtin scalar class: `type(var) is str`, a conjunction
+        containing it, or a helper predicate f(var) of the package whose every return is such"""
+        if not var:
+            return False
+        # issubclass(type(var), str) is NOT enough: an instance of a subclass of str may override __hash__ / __eq__, which a
+        # dict built from the keys would run
+        if _is_exact_scalar_test(e, var):
+            return True
+        if isinstance(e, ast.BoolOp) and isinstance(e.op, ast.And):
+            return any(self._scalar_pred(fi, v, var, depth) for v in e.values)
+        if isinstance(e, ast.Call) and depth < 3:
+            callee = self.repo.resolve_callee(fi, e)
+            if callee is not None and callee.fq.startswith("monkeytype."):
+                from mtsa.index import bind_args
+                b = bind_args(callee, e, skip_self=callee.cls is not None)
+                pname = next((k for k, v in b.items() if dotted(v) == var and not k.startswith("*")), None)
+                rets = [x.value for x in walk_no_nested(callee.node) if isinstance(x, ast.Return)]
+                if pname is not None and rets and all(r is not None and self._scalar_pred(callee, r, pname, depth + 1) for r in rets):
+                    # the parameter must not be rebound inside the helper
+                    return not any(isinstance(x, ast.Name) and x.id == pname and isinstance(x.ctx, ast.Store) for x in ast.walk(callee.node))
         return False
 
 
@@ -859,7 +915,7 @@ def run(ctx: Ctx, repo: Repo, tier: str) -> None:
         "an exception leaving a sys.setprofile function is raised into the traced program and uninstalls the profiler",
     )
     ctx.assume(
-        "instances of subclasses of str / classmethod / staticmethod / property / cached_property that override special methods are "
+        "instances of subclasses of classmethod / staticmethod / property / cached_property that override special methods are "
         "treated like their builtin base (residual of the issubclass(type(v), K) guards)",
         "class objects (type(v), and values under an issubclass(type(v), type) guard) are hookable only through a metaclass; "
         "class-level operations are not reported",
